@@ -63,7 +63,8 @@ def make_structure(desc: dict):
 
 def create_dataset(root: Path, desc: dict, metadata=None):
     from sedpack.io import Dataset, Metadata
-    md = metadata if metadata is not None else Metadata(description="verif")
+    md = metadata if metadata is not None else Metadata(
+        description="verif \u00e9\u6f22")
     return Dataset.create(path=root,
                           metadata=md,
                           dataset_structure=make_structure(desc))
@@ -73,11 +74,15 @@ def simple_desc(fmt: str = "fb",
                 compression: str = "",
                 eps: int = 3,
                 hashes=("sha256",),
-                payload: bool = True) -> dict:
+                payload: bool = True,
+                var_attr: bool = False) -> dict:
     attrs = [{"name": "id", "dtype": "int64", "shape": []}]
     if payload:
         attrs.append({"name": "v", "dtype": "float32", "shape": [2, 2]})
         attrs.append({"name": "w", "dtype": "uint8", "shape": [3]})
+    if var_attr and fmt in ("npz", "tfrec"):
+        # a variable-size attribute (the formats which can store one)
+        attrs.append({"name": "b", "dtype": "bytes", "shape": []})
     return {
         "fmt": fmt,
         "compression": compression,
@@ -189,7 +194,7 @@ def write_runs(filler_ctx, desc: dict, runs: list, delay_s: float = 0.0) -> None
             meta = meta.apply()
         for pos, ex_id in enumerate(ids):
             if bad_at is not None and pos == bad_at % max(len(ids), 1):
-                attempt_rejected_write(filler_ctx, desc, split, meta)
+                attempt_rejected_write(filler_ctx, desc, split, meta, bad_at)
             if ON_WRITE is not None:
                 ON_WRITE(ex_id)
             kwargs = {}
@@ -205,12 +210,19 @@ def write_runs(filler_ctx, desc: dict, runs: list, delay_s: float = 0.0) -> None
 REJECTED = {"n": 0, "accepted": 0}
 
 
-def attempt_rejected_write(filler_ctx, desc: dict, split: str, meta) -> None:
-    """A write whose 'id' has the wrong shape; the caller (we) catches the
-    error and carries on, as C18 allows.  If the library accepts it, that is
-    C18's finding, not the current property's."""
+def attempt_rejected_write(filler_ctx, desc: dict, split: str, meta,
+                           which: int = 0) -> None:
+    """A write in which one attribute (chosen by `which`) has the wrong shape
+    or, where bytes / str is declared, is an array; the caller (we) catches
+    the error and carries on, as C18 allows.  If the library accepts it, that
+    is C18's finding, not the current property's."""
     values = example_for(desc, 0)
-    values["id"] = np.zeros((2,), dtype=np.int64)
+    attr = desc["attrs"][which % len(desc["attrs"])]
+    if attr["dtype"] in ("bytes", "str"):
+        values[attr["name"]] = np.arange(3, dtype=np.uint8)
+    else:
+        values[attr["name"]] = np.zeros(tuple(attr["shape"]) + (2,),
+                                        dtype=attr["dtype"])
     kwargs = {}
     if meta is not None:
         kwargs["custom_metadata"] = meta
